@@ -656,7 +656,7 @@ func (e *Engine) eval(env *Env, x ast.Expr) (Val, types.Type) {
 			}
 		}
 		e.specErr("unknown name %s", n.Name)
-		return Sc{"0"}, tInt
+		return Sc{"specerr!"}, tInt // a marker constant: obligations mentioning it are not what the contract meant (see check.go)
 	case *ast.StarExpr:
 		v, t := e.eval(env, n.X)
 		if p, ok := v.(PtrV); ok {
@@ -1067,6 +1067,23 @@ func (e *Engine) evalCall(env *Env, n *ast.CallExpr) (Val, types.Type) {
 		}
 		e.specErr("in: first argument must be a map")
 		return Sc{"false"}, tBool
+	case "seen": // seen(m, k): the range loop in progress over map m has already delivered key k (all keys of m once it has ended)
+		if !need(2) {
+			return Sc{"false"}, tBool
+		}
+		mv, mt := arg(0)
+		k := argS(1)
+		if _, ok := under(mt).(*types.Map); ok {
+			if _, _, _, ks, _, ok := e.mapComps(env.heap, mt); ok {
+				g := "seen"
+				if ks == "Str" {
+					g = "seen_s"
+				}
+				return Sc{fmt.Sprintf("(select (select %s %s) %s)", e.ghost(env.heap, g), e.scalar(mv), k)}, tBool
+			}
+		}
+		e.specErr("seen: first argument must be a map")
+		return Sc{"false"}, tBool
 	case "strle": // the total order sort.Strings sorts by
 		if !need(2) {
 			return Sc{"true"}, tBool
@@ -1313,6 +1330,9 @@ var ghostSorts = map[string]string{
 	"wr_last":    "Int", // identity (slid) of the byte range most recently offered to this sink
 	"sb_len":     "Int", // length of a strings.Builder's contents
 	"mark":       "Bool", // a provenance mark a function gives to an object it creates (ghostdef)
+	"cb_calls":   "Int",  // number of calls made through this function value (callbacks handed to the library)
+	"seen":       "(Array Int Bool)", // per map (Int-sorted keys): the keys the range loop in progress over it has delivered so far
+	"seen_s":     "(Array Str Bool)", // the same for maps with string keys
 }
 
 // specEnv builds the environment for contract clauses of the frame's function: parameters, captured variables,
